@@ -44,6 +44,8 @@ fn main() {
                 println!("C07: {:?}", c07::judge(&text, s, e, &b));
             }
         }
+        "RENORM05" => space::renormalise("C05", c05::judge, args.extra.get("file").map(|s| s.as_str()).unwrap_or("")),
+        "RENORM06" => space::renormalise("C06", c06::judge, args.extra.get("file").map(|s| s.as_str()).unwrap_or("")),
         "ITEMS" => {
             let cs = common::ConfigSpace::new();
             let b = cs.build(&common::Cfg::default());
